@@ -124,6 +124,16 @@ def rule_r3(facts, col):
                                 rewrites.add(fb)
                     elif _helper_rewrites_by(facts, body, fb, ft, c):
                         rewrites.add(fb)
+                # ... or an explicit loop over the list in this body: `for t in tags.iter_mut() { t.set_pos(t.pos() / c) }` - the
+                # whole loop is the rewrite (with no tags it runs zero times, and there is nothing to re-base)
+                for sb, st in body.calls_to(SET_POS):
+                    e2 = peel(body.operand_expr(st["args"][1]), through_try=False)
+                    if e2.k == "bin" and e2.op == "Div" and same_expr(e2.b, c):
+                        a2 = peel(e2.a, through_try=False)
+                        if a2.k == "call" and a2.q == "stream::Tag::pos":
+                            comp = scc_of(body, sb)
+                            if comp:
+                                rewrites |= set(comp)
                 r = body.reachable(0, avoid=rewrites, edge_filter=lambda a_, b_: (a_, b_) not in one_edges)
                 if pb not in r or 0 in rewrites:
                     how = []
@@ -189,6 +199,11 @@ def rule_r4(facts, col):
             else:
                 col.ok("C12.R4", key, body.where(pb), "tags and consumed window come from the same read_buf() call, nothing consumed in between")
 
+
+
+# a body that raises an alarm as compiled is judged again on its work view (effects.view_fallback)
+rule_r3 = effects.view_fallback(rule_r3)
+rule_r4 = effects.view_fallback(rule_r4)
 
 def run(ctx):
     facts = ctx.facts("default")
